@@ -396,8 +396,10 @@ def _walk_and_compare(ck, prog):
             fix[v] = lo2
         ck.ob("LOOP-nonempty", construct, ne, expected="at least one candidate in this regime (the sentinel is always overwritten)",
               found=[(v, repr(lo), repr(hi)) for v, lo, hi in vs], slot=tag + ":nonempty", where=fam.where)
+        ck.shape(fam.update_ok is not None, "deltaMax: candidate update in an unrecognised form: %s" % fam.update_desc[:120], fam.where)
         ck.ob("FOLD-argmax", construct, bool(fam.update_ok and fam.ctor_ok), expected="if self.dmax < cand.delta(): self.dmax = cand.delta()  with cand = Sequence(<candidate>)",
               found=fam.update_desc, slot=tag + ":update", where=fam.where)
+        ck.shape(fam.pair_ok is not None, "deltaMax: permutant write in an unrecognised form: %s" % fam.update_desc[:120], fam.where)
         ck.ob("PAIR-permutant", construct, bool(fam.pair_ok),
               expected="if <flag>: self.seqDeltaMax = cand.__permutant_from_reduced_seq(parentSeqObj=self) in the same block as the value",
               found=fam.update_desc, slot=tag + ":permutant", where=fam.where)
@@ -460,23 +462,44 @@ def _mentions_loopvar(c, names):
 
 
 def _update_shape(node, obj, flag):
-    """if self.dmax (<|<=) obj.delta(): self.dmax = obj.delta(); if flag: self.seqDeltaMax = obj.__permutant...(parentSeqObj=self)"""
+    """if self.dmax (<|<=) obj.delta(): self.dmax = obj.delta(); if flag: self.seqDeltaMax = obj.__permutant...(parentSeqObj=self)
+    returns (update_ok, pair_ok, description); None means 'shape not recognised' (undecided), False means a definite mismatch"""
     t = node.test
     desc = unparse(node)[:220]
-    ok_t = isinstance(t.ops[0], (ast.Lt, ast.LtE)) and is_self_attr(t.left, "dmax") and unparse(t.comparators[0]) == "%s.delta()" % obj
-    if isinstance(t.ops[0], (ast.Gt, ast.GtE)) and is_self_attr(t.comparators[0], "dmax") and unparse(t.left) == "%s.delta()" % obj:
-        ok_t = True
-    asg = [s for s in node.body if isinstance(s, ast.Assign)]
-    ok_v = len(asg) == 1 and is_self_attr(asg[0].targets[0], "dmax") and unparse(asg[0].value) == "%s.delta()" % obj
+    dcall = "%s.delta()" % obj
+    sides = [unparse(t.left), unparse(t.comparators[0])]
+    # a local that holds obj.delta() is fine
+    def is_delta(txt):
+        return txt == dcall
+    lt = isinstance(t.ops[0], (ast.Lt, ast.LtE)) and unparse(t.left) == "self.dmax" and is_delta(sides[1])
+    gt = isinstance(t.ops[0], (ast.Gt, ast.GtE)) and unparse(t.comparators[0]) == "self.dmax" and is_delta(sides[0])
+    asg = [s for s in node.body if isinstance(s, ast.Assign) and any(is_self_attr(tt, "dmax") for tt in s.targets)]
     ifs = [s for s in node.body if isinstance(s, ast.If)]
-    ok_p = False
-    if len(ifs) == 1 and unparse(ifs[0].test) == flag and len(ifs[0].body) == 1 and isinstance(ifs[0].body[0], ast.Assign) and not ifs[0].orelse:
-        a = ifs[0].body[0]
-        v = a.value
-        ok_p = is_self_attr(a.targets[0], "seqDeltaMax") and isinstance(v, ast.Call) and unparse(v.func) == "%s.__permutant_from_reduced_seq" % obj \
-            and ((len(v.args) == 1 and unparse(v.args[0]) == "self") or (len(v.keywords) == 1 and unparse(v.keywords[0].value) == "self"))
     extra = [s for s in node.body if s not in asg and s not in ifs]
-    return ok_t and ok_v and not extra and not node.orelse, ok_p and ok_t and ok_v, desc
+    if extra or node.orelse or len(asg) != 1:
+        return None, None, desc
+    other_side = sides[1] if unparse(t.left) == "self.dmax" else sides[0]
+    if not (lt or gt):
+        # definite mismatches: the wrong quantity compared / the wrong direction
+        if "self.dmax" in sides and isinstance(t.ops[0], (ast.Lt, ast.LtE, ast.Gt, ast.GtE)) and other_side.endswith(".delta()"):
+            return False, False, desc            # e.g. self.dmax > cand.delta(), or another object's delta
+        if other_side == dcall and "self.delta()" in sides:
+            return False, False, desc            # compared against the receiver's own delta
+        return None, None, desc
+    ok_v = unparse(asg[0].value) == dcall
+    if not ok_v and not unparse(asg[0].value).endswith(".delta()"):
+        return None, None, desc
+    ok_p = None
+    if len(ifs) == 1 and not ifs[0].orelse:
+        tt = unparse(ifs[0].test)
+        stores = [a for a in ifs[0].body if isinstance(a, ast.Assign) and any(is_self_attr(x, "seqDeltaMax") for x in a.targets)]
+        if tt == flag and len(ifs[0].body) == 1 and len(stores) == 1 and isinstance(stores[0].value, ast.Call):
+            v = stores[0].value
+            ok_p = unparse(v.func) == "%s.__permutant_from_reduced_seq" % obj \
+                and ((len(v.args) == 1 and unparse(v.args[0]) == "self") or (len(v.keywords) == 1 and unparse(v.keywords[0].value) == "self"))
+        elif flag in tt and len(stores) == 1 and tt != flag:
+            ok_p = False                          # an extra condition on the permutant write: value and permutant can drift apart
+    return ok_v, (ok_p if ok_p is None else (ok_p and ok_v)), desc
 
 
 # ------------------------------------------------------------------------------------ permutant builder
@@ -539,13 +562,24 @@ def _permutant_builder(ck, prog, cmap):
         if src is None or len(body) != 2:
             once = False
         sym2list[sym] = src
-    ck.ob("PART-permutant", construct, once and len(arms) == 3, expected="each symbol appends the next residue of one class and advances that class's counter, once",
+    ck.shape(len(arms) == 3 and all(v is not None or True for v in sym2list.values()), "permutant builder: three-way split on the symbol", f.loc(lp))
+    incs_ok = True
+    for test, body_ in arms:
+        augs = [x for x in body_ if isinstance(x, ast.AugAssign) and isinstance(x.target, ast.Name)]
+        apps_ = [x for x in augs if any(isinstance(n, ast.Subscript) for n in ast.walk(x.value))]
+        ctrs = [x for x in augs if x not in apps_]
+        ck.shape(len(apps_) == 1 and len(body_) <= 2 and len(ctrs) <= 1, "permutant builder: each branch appends one residue (and advances one counter)", f.loc(lp))
+        if len(ctrs) != 1 or unparse(ctrs[0].value) != "1" or not isinstance(ctrs[0].op, ast.Add):
+            incs_ok = False
+    ck.shape(once or not incs_ok, "permutant builder: append/counter pattern not recognised", f.loc(lp))
+    ck.ob("PART-permutant", construct, once and incs_ok, expected="each symbol appends the next residue of one class and advances that class's counter, once",
           found=sym2list, slot="consume-once", where=f.loc(lp))
     want = {"+": {L for L in LETTERS if cmap[L] > 0}, "-": {L for L in LETTERS if cmap[L] < 0}, "0": {L for L in LETTERS if cmap[L] == 0}}
     got = {}
     for sym, lst in sym2list.items():
         key = sym if sym in ("+", "-") else "0"
         got[key] = cls.get(lst)
+    ck.shape(all(got.get(k) is not None for k in "+-0"), "permutant builder: residue classes given as comprehensions over the parent's sequence with literal membership tests", f.loc())
     for k in "+-0":
         ck.ob("PART-permutant", construct, got.get(k) == want[k], expected=sorted(want[k]), found=sorted(got[k]) if got.get(k) is not None else None,
               slot="class[%s]" % k, where=f.loc(),
